@@ -438,6 +438,7 @@ func memoKeys(p *load.Prog, r *oblig.Run, rule string) {
 		}
 	}
 	r.Extra[rule+"_tables"] = names
+	globalScratch(p, r, rule)
 	if os.Getenv("GEDCHECK_DEBUG_MEMO") != "" {
 		for k, a := range accs {
 			fmt.Println("MEMO", k, a.read, a.write, returnsRead[k], len(a.keys))
@@ -1116,5 +1117,95 @@ func c04PatternFirst(p *load.Prog, r *oblig.Run) {
 		} else {
 			o.OK(fmt.Sprintf("%d return(s), each after the pattern match", n))
 		}
+	}
+}
+
+// globalScratch (part of the memo rule): a function of the library package that is not an initialiser writes a
+// package-level variable only if the variable is one of the reviewed process-wide tables (the children-by-tag
+// cache that the node edits reset, the tag registry filled at initialisation). Any other package-level variable
+// written at run time is scratch state shared by every caller: two goroutines in the function at once (workers of
+// Compare, of the publisher) overwrite each other's values, and the result of a pure function depends on who else
+// is running.
+func globalScratch(p *load.Prog, r *oblig.Run, rule string) {
+	reviewed := map[string]string{
+		"nodeCache": "the children-by-tag cache: replaced wholesale by the node edits (a pointer store of a fresh sync.Map)",
+		"knownTags": "the tag registry: filled by newTag during package initialisation",
+	}
+	type site struct {
+		fn  *ssa.Function
+		pos token.Pos
+	}
+	found := map[string][]site{}
+	for _, fn := range p.Repo {
+		pk := pkgPathOf(fn)
+		if pk != load.PkgRoot && pk != load.PkgUtil {
+			continue
+		}
+		top := fn
+		for top.Parent() != nil {
+			top = top.Parent()
+		}
+		if top.Name() == "init" || strings.HasPrefix(top.Name(), "init#") {
+			continue
+		}
+		for _, b := range fn.Blocks {
+			for _, ins := range b.Instrs {
+				var addr ssa.Value
+				switch x := ins.(type) {
+				case *ssa.Store:
+					addr = x.Addr
+				case *ssa.MapUpdate:
+					addr = x.Map
+				default:
+					continue
+				}
+				var g *ssa.Global
+				for i := 0; i < 6 && addr != nil; i++ {
+					switch y := addr.(type) {
+					case *ssa.Global:
+						g = y
+						addr = nil
+					case *ssa.IndexAddr:
+						addr = y.X
+					case *ssa.FieldAddr:
+						addr = y.X
+					case *ssa.UnOp:
+						if y.Op == token.MUL {
+							if gg, ok := y.X.(*ssa.Global); ok {
+								// a store through a pointer/map/slice held in a package variable
+								g = gg
+							}
+						}
+						addr = nil
+					default:
+						addr = nil
+					}
+				}
+				if g == nil || g.Pkg == nil || (g.Pkg.Pkg.Path() != load.PkgRoot && g.Pkg.Pkg.Path() != load.PkgUtil) {
+					continue
+				}
+				found[g.Name()] = append(found[g.Name()], site{fn, ins.Pos()})
+			}
+		}
+	}
+	var names []string
+	for k := range found {
+		names = append(names, k)
+	}
+	sort.Strings(names)
+	for _, k := range names {
+		o := r.Add(rule, "run-time writes of package variable "+k, p.Pos(found[k][0].pos), "package-level state written outside initialisation")
+		var where []string
+		for _, s := range found[k] {
+			if k == "knownTags" && s.fn.Name() == "newTag" {
+				continue // the registry is filled by newTag, which only package initialisers call (registry invariant, R01.c)
+			}
+			where = append(where, load.FuncName(s.fn)+" at "+p.Pos(s.pos))
+		}
+		if why, ok := reviewed[k]; ok && (k != "knownTags" || len(where) == 0) {
+			o.OK("reviewed: " + why)
+			continue
+		}
+		o.Fail("the package-level variable " + k + " is written at run time (" + strings.Join(where, "; ") + "): it is shared by every caller of that function - concurrent callers (the workers of Compare and of the publisher) overwrite each other's value and a function of two dates/strings answers with a mix of both calls (wrong relation, score of another pair), apart from the data race")
 	}
 }
